@@ -222,7 +222,14 @@ impl BlockData {
         }
 
         match self.last_slice {
-            None if is_last => self.mark_last_slice(slice_index),
+            None if is_last => {
+                // a slice already seen beyond the newly declared last slice contradicts
+                // the marker, just like in the opposite arrival order
+                if self.commitment_cache.keys().any(|&ind| ind > slice_index) {
+                    return Err(AddShredError::Equivocation);
+                }
+                self.mark_last_slice(slice_index);
+            }
             None => {}
             Some(l) => {
                 let consistent = (slice_index < l && !is_last) || (slice_index == l && is_last);
